@@ -205,6 +205,27 @@ func refListHunk(c []JsonNode, i int, B, R, A, F []JsonNode) (bool, []JsonNode) 
 }
 
 // vContext: absent, boundary marker, one value, marker+value / two values.
+// vC03Elem: an array element / expected value. ELEMS=0: a number. ELEMS=1: a number, an object
+// with one or two members (so that one expectation's members can be a proper subset or superset
+// of the document's), a one-element array or {}.
+func vC03Elem() JsonNode {
+	if vParam("ELEMS", 0) == 0 {
+		return vNum()
+	}
+	switch vChoice(5) {
+	case 0:
+		return vNum()
+	case 1:
+		return jsonObject{"id": vNum()}
+	case 2:
+		return jsonObject{"id": vNum(), "name": vNum()}
+	case 3:
+		return jsonArray{vNum()}
+	default:
+		return jsonObject{}
+	}
+}
+
 func vContext(max int, before bool) []JsonNode {
 	switch vChoice(2 + max) {
 	case 0:
@@ -212,15 +233,15 @@ func vContext(max int, before bool) []JsonNode {
 	case 1:
 		return []JsonNode{voidNode{}}
 	case 2:
-		return []JsonNode{vNum()}
+		return []JsonNode{vC03Elem()}
 	default:
 		if vChoice(2) == 0 {
-			return []JsonNode{vNum(), vNum()}
+			return []JsonNode{vC03Elem(), vC03Elem()}
 		}
 		if before {
-			return []JsonNode{voidNode{}, vNum()}
+			return []JsonNode{voidNode{}, vC03Elem()}
 		}
-		return []JsonNode{vNum(), voidNode{}}
+		return []JsonNode{vC03Elem(), voidNode{}}
 	}
 }
 
@@ -228,7 +249,7 @@ func vNums(max int) []JsonNode {
 	n := vChoice(max + 1)
 	out := make([]JsonNode, n)
 	for i := range out {
-		out[i] = vNum()
+		out[i] = vC03Elem()
 	}
 	return out
 }
@@ -239,7 +260,7 @@ func VerifC03Hunk() {
 	n := vChoice(vParam("N", 2) + 1)
 	c := make(jsonArray, n)
 	for i := range c {
-		c[i] = vNum()
+		c[i] = vC03Elem()
 	}
 	orig := vClone(c).(jsonArray)
 	how := [...]int{0, 1, 2, 3}[vChoice(vParam("WRAPS", 4))]
